@@ -71,7 +71,7 @@ PROPS = {
             ('core::str_char_at', {'s': 'abc', 'i': 3}), ('core::str_slice', {'s': 'abc', 'start': 1, 'end': None, 'step': 0}),
         ],
         'not_covered': [
-            'the lexer (`::` inside brackets, see the known finding), the lowering of range calls and of the sub-expressions of an index / slice (recursive descent over syntax trees); in the parser the recursive expression() and in the emitter the recursive emit_expr of the operands are assumed contracts; quote! is modelled by its literal tokens and spliced values (trusted)',
+            'the lexer, the lowering of range calls and of the sub-expressions of an index / slice (recursive descent over syntax trees); in the parser the recursive expression() and in the emitter the recursive emit_expr of the operands are assumed contracts; quote! is modelled by its literal tokens and spliced values (trusted)',
             'HashMap\'s own behaviour is vstd\'s model (obeys_key_model)',
         ],
         'assumptions': [
